@@ -9,6 +9,7 @@
 //@ gsubst `std::io::SeekFrom` => `SeekFrom` :: R11 stub enum for std::io::SeekFrom (same variants)
 //@ gsubst `merklehash::compute_data_hash` => `compute_data_hash` :: R11 stub for the merklehash dependency (uninterpreted chunk hash)
 //@ gsubst `size_of_val` => `vx_size_of_val` :: R11 stub for std::mem::size_of_val (sizes of the argument types used: u32, [u8;16])
+//@ gsubst `Vec::with_capacity(` => `vx_with_capacity(` :: R11 stub for Vec::with_capacity carrying the allocation cap of C08 as precondition
 //@ gsubst `u32::from_le_bytes` => `vx_u32_from_le_bytes` :: R11 stub for std u32::from_le_bytes (anonymous-const array type cannot be named in assume_specification; value unconstrained)
 //@ gsubst `DataHash` => `MerkleHash` :: `merklehash::MerkleHash` is an alias of `DataHash` (merklehash/src/lib.rs:49)
 #![allow(non_snake_case, unused)]
@@ -224,9 +225,21 @@ impl CasObjectInfoV0 {
 pub open spec fn prealloc_cap() -> nat { 1152 }
 #[verifier::external_body]
 fn vx_reserve<T>(v: &mut Vec<T>, additional: usize)
-    requires additional <= prealloc_cap()
+    requires /*@C08*/ additional <= prealloc_cap()
     ensures final(v)@ == old(v)@
 { v.reserve(additional) }
+// the same cap for the other ways of allocating from a declared count (`resize`, `with_capacity`): a footer parser that sizes a table by an
+// untrusted count fails this precondition (pre-bf8898d `deserialize_only_boundaries_section` did: 16 GiB request from a 44-byte input)
+#[verifier::external_body]
+fn vx_resize<T: Clone>(v: &mut Vec<T>, new_len: usize, value: T)
+    requires /*@C08*/ new_len <= prealloc_cap()
+    ensures final(v)@.len() == new_len
+{ v.resize(new_len, value) }
+#[verifier::external_body]
+fn vx_with_capacity<T>(capacity: usize) -> (v: Vec<T>)
+    requires /*@C08*/ capacity <= prealloc_cap()
+    ensures v@.len() == 0
+{ Vec::with_capacity(capacity) }
 
 //@ extract cas_object/src/cas_object_format.rs fn prealloc_num_chunks
 //@ ret r
@@ -257,6 +270,9 @@ impl CasObjectInfoV1 {
 //@ subst `s.chunk_hashes.reserve(` => `vx_reserve(&mut s.chunk_hashes, ` :: R11 stub for Vec::reserve carrying the allocation cap as precondition
 //@ subst `s.chunk_boundary_offsets.reserve(` => `vx_reserve(&mut s.chunk_boundary_offsets, ` :: R11 stub for Vec::reserve carrying the allocation cap as precondition
 //@ subst `s.unpacked_chunk_offsets.reserve(` => `vx_reserve(&mut s.unpacked_chunk_offsets, ` :: R11 stub for Vec::reserve carrying the allocation cap as precondition
+//@ optsubst `s.chunk_hashes.resize(` => `vx_resize(&mut s.chunk_hashes, ` :: R11 stub for Vec::resize carrying the allocation cap (not in the current text)
+//@ optsubst `s.chunk_boundary_offsets.resize(` => `vx_resize(&mut s.chunk_boundary_offsets, ` :: as above
+//@ optsubst `s.unpacked_chunk_offsets.resize(` => `vx_resize(&mut s.unpacked_chunk_offsets, ` :: as above
 //@ contract
         requires
             // input below 4 GiB: a version-0 footer of >= 2^32 bytes would overflow the u32 arithmetic of fill_in_boundary_offsets in from_v0
@@ -313,18 +329,32 @@ pub fn vx_size_of_val<T: VxSized>(x: &T) -> (r: usize) ensures r == T::vx_size()
 impl CasObjectInfoV1 {
 //@ extract cas_object/src/cas_object_format.rs in `impl CasObjectInfoV1` fn deserialize_only_boundaries_section
 //@ ret ret
-//@ rules R15
+//@ rules R15 R4u
 //@ subst `countio::Counter::new(reader)` => `Counter::new(reader)` :: R11 stub type for the countio dependency
+//@ optsubst `s.chunk_boundary_offsets.reserve(` => `vx_reserve(&mut s.chunk_boundary_offsets, ` :: R11 stub for Vec::reserve carrying the allocation cap as precondition
+//@ optsubst `s.unpacked_chunk_offsets.reserve(` => `vx_reserve(&mut s.unpacked_chunk_offsets, ` :: R11 stub for Vec::reserve carrying the allocation cap as precondition
+//@ optsubst `s.chunk_boundary_offsets.resize(` => `vx_resize(&mut s.chunk_boundary_offsets, ` :: R11 stub for Vec::resize carrying the allocation cap (pre-bf8898d text)
+//@ optsubst `s.unpacked_chunk_offsets.resize(` => `vx_resize(&mut s.unpacked_chunk_offsets, ` :: as above
 //@ subst `s.chunk_hashes.is_empty()` => `s.chunk_hashes@.len() == 0` :: spec rendering of the exec call inside the R2 obligation (`debug_assert!(s.chunk_hashes.is_empty())`)
 //@ contract
+        // (no bound on the untrusted on-wire `boundary_section_offset_from_end`: since e1bd685 the `+ 4` is a checked_add that rejects)
         requires old(reader).bytes().len() <= u32::MAX,
-            // (P3) the untrusted on-wire `boundary_section_offset_from_end` (the u32 stored 24 bytes before the end) must leave room for the
-            // `+= 4`: NOT guaranteed for arbitrary input -- see notes (finding, replayed)
-            old(reader).bytes().len() >= 24 ==> spec_u32_at(old(reader).bytes(), (old(reader).bytes().len() - 24) as nat) + 4 <= u32::MAX,
         ensures
             final(reader).bytes() == old(reader).bytes(),
             /*@C07*/ ret matches Ok((s, n)) ==> s.chunk_boundary_offsets@.len() == s.num_chunks && s.unpacked_chunk_offsets@.len() == s.num_chunks
                 && s.boundary_section_offset_from_end == boundary_section_len(s.num_chunks as nat, s.num_chunks as nat),
+//@ loop 1
+            invariant
+                reader.bytes() == old(reader).bytes(), old(reader).bytes().len() <= u32::MAX,
+                r.n <= r.avail, r.avail <= old(reader).bytes().len(),
+                s.chunk_hashes@.len() == 0, s.chunk_boundary_offsets@.len() == vx_u, s.unpacked_chunk_offsets@.len() == 0,
+                r.n == 12 + 4 * vx_u,
+//@ loop 2
+            invariant
+                reader.bytes() == old(reader).bytes(), old(reader).bytes().len() <= u32::MAX,
+                r.n <= r.avail, r.avail <= old(reader).bytes().len(),
+                s.chunk_hashes@.len() == 0, s.chunk_boundary_offsets@.len() == num_chunks_boundaries_section, s.unpacked_chunk_offsets@.len() == vx_u,
+                r.n == 12 + 4 * num_chunks_boundaries_section + 4 * vx_u,
 //@ end
 }
 
